@@ -15,7 +15,7 @@ pub struct Line {
     /// None: single code point
     pub end: Option<u32>,
     pub cats: Vec<String>,
-    /// 0 none, 1 trailing comment, 2 comment line before, 3 category definition line before
+    /// 0 none, 1 trailing comment, 2 comment line before, 3 category definition line before, 4-7 other spellings of the range (see render)
     pub deco: u8,
 }
 
@@ -40,12 +40,18 @@ pub fn render(lines: &[Line]) -> String {
             3 => s.push_str("DEFAULT 0 1 0\n"),
             _ => {}
         }
+        // spellings of the same line: 4 = range end without the 0x prefix, 5 = lower-case hex digits,
+        // 6 = indented, tabs between the columns, 7 = 4 and 5 together
+        if l.deco == 6 {
+            s.push_str("  \t");
+        }
+        let hex = |v: u32| if l.deco == 5 || l.deco == 7 { format!("{:04x}", v) } else { format!("{:04X}", v) };
         match l.end {
-            Some(e) => s.push_str(&format!("0x{:04X}..0x{:04X}", l.begin, e)),
-            None => s.push_str(&format!("0x{:04X}", l.begin)),
+            Some(e) => s.push_str(&format!("0x{}..{}{}", hex(l.begin), if l.deco == 4 || l.deco == 7 { "" } else { "0x" }, hex(e))),
+            None => s.push_str(&format!("0x{}", hex(l.begin))),
         }
         for c in &l.cats {
-            s.push(' ');
+            s.push(if l.deco == 6 { '\t' } else { ' ' });
             s.push_str(c);
         }
         if l.deco == 1 {
@@ -65,7 +71,7 @@ fn line() -> BoxedStrategy<Line> {
         1 => Just(vec!["NOSUCHCLASS"]),
     ]
     .prop_map(|v| v.into_iter().map(|s| s.to_string()).collect::<Vec<_>>());
-    (point.clone(), prop::option::weighted(0.7, (point, 0u32..0x500)), cats, 0u8..4, prop::bool::weighted(0.04))
+    (point.clone(), prop::option::weighted(0.7, (point, 0u32..0x500)), cats, prop_oneof![4 => 0u8..4, 1 => 4u8..8], prop::bool::weighted(0.04))
         .prop_map(|(a, b, cats, deco, hostile)| {
             let fix = |x: u32, is_end: bool| -> u32 {
                 if hostile {
